@@ -237,5 +237,9 @@ def stabilizerToGraph (t : STab) : Except Err BMat :=
     | .ok true => .ok g.adj
     | .ok false => .error .assertion
 
+/-- `list(graph.edges)` of the simple graph `nx.from_numpy_array(A)` on `0..n-1`: every edge once, as `(u, v)` with `u < v`,
+    in the order of the nested loops — the list `_graph_to_density_pure` applies its CZ gates along -/
+def edgesOf (n : Nat) (A : Adj) : List (Nat × Nat) := (STab.pairsLt n).filter fun e => A e.1 e.2
+
 end S2G
 end Graphiq
